@@ -588,3 +588,34 @@ def x_dilplan(p):
            "small": max(vmax) <= 50}
     rec.update(proj)
     return rec
+
+
+# ----------------------------------------------------------------------------- C05: combine_composition
+@executor("combine")
+def x_combine(p):
+    from fractions import Fraction
+
+    from robotools.liquidhandling.composition import combine_composition
+    from .twin import proj_frac
+
+    def py(c):
+        return None if c is None else {nm: n / d for nm, (n, d) in c.items()}
+
+    def log(c):
+        return [[nm, n, d] for nm, (n, d) in sorted(c.items())] if c is not None else []
+
+    exc, res, isnone = None, [], False
+    try:
+        out = combine_composition(p["va"], py(p["a"]), p["vb"], py(p["b"]))
+        if out is None:
+            isnone = True
+        else:
+            for nm in sorted(out):
+                n, d = proj_frac(out[nm])
+                if n != 0:
+                    res.append([str(nm), n, d])
+    except Exception as e:  # noqa
+        exc = e
+    return {"fn": "combine", "id": f"va={p['va']} vb={p['vb']} a={p['a']} b={p['b']}", "va": p["va"], "vb": p["vb"],
+            "aknown": p["a"] is not None, "bknown": p["b"] is not None, "a": log(p["a"]), "b": log(p["b"]),
+            "out": outcome_class(exc), "isnone": isnone, "res": res}
